@@ -193,7 +193,51 @@ def gen_base(rng, sid, family="base", n=None, q=None, refresh="auto", pop=None, 
     return sc
 
 
+def gen_lin(rng, sid):
+    """k client goroutines hammer one bar (and read it) while it is rendered, completes and exits."""
+    k = rng.randint(2, 4)
+    total = rng.choice([0, 0, 3, 5, 8])
+    cfg = {"q": -1, "refresh": rng.choice(["auto", "auto", "none"]), "pop": False, "notifier": False, "width": 120,
+           "delay": False, "outfault": 0, "ctx": False}
+    progs = [[] for _ in range(k)]
+    progs[0].append({"op": "add", "b": "b1", "total": total,
+                     "pre": [decor_spec(rng, False, wrap_ok=False)] if rng.random() < 0.5 else []})
+    for c in range(k):
+        for _ in range(rng.randint(2, 5)):
+            r = rng.random()
+            if r < 0.4:
+                progs[c].append({"op": "incr", "b": "b1", "n": rng.randint(1, 2)})
+            elif r < 0.5:
+                progs[c].append({"op": "getcur", "b": "b1"})
+            elif r < 0.6:
+                progs[c].append({"op": "getcomp", "b": "b1"})
+            elif r < 0.7:
+                progs[c].append({"op": "getab", "b": "b1"})
+            elif r < 0.78 and total <= 0:
+                progs[c].append({"op": "settotal", "b": "b1", "n": rng.randint(-1, 4), "flag": rng.random() < 0.3})
+            elif r < 0.84 and total <= 0:
+                progs[c].append({"op": "trigger", "b": "b1"})
+            elif r < 0.9:
+                progs[c].append({"op": "refill", "b": "b1", "n": rng.randint(0, 3)})
+            elif r < 0.95:
+                progs[c].append({"op": "abort", "b": "b1", "flag": rng.random() < 0.3})
+            else:
+                progs[c].append({"op": "getcur", "b": "b1"})
+    progs[0].append({"op": "abort", "b": "b1", "flag": False})
+    progs[0].append({"op": "wait"})
+    for o in ("getcur", "getcomp", "getab"):
+        progs[0].append({"op": o, "b": "b1"})
+    # readers that keep reading while the bar shuts down and after it has exited
+    c = rng.randrange(1, k)
+    for _ in range(rng.randint(2, 6)):
+        progs[c].append({"op": rng.choice(["getcomp", "getab", "getcur"]), "b": "b1"})
+    return {"id": sid, "family": "lin", "cfg": cfg, "clients": progs,
+            "sched": {"mode": "free", "seed": rng.randrange(1 << 30), "tickw": 1, "steps": [], "budget": 0, "bias": []}, "stats": False}
+
+
 def family(name, rng, sid):
+    if name == "lin":
+        return gen_lin(rng, sid)
     if name.endswith("@free"):
         sc = family(name[:-5], rng, sid)
         sc["family"] = name
